@@ -329,6 +329,25 @@ class Facts:
             return c
         return None
 
+    LATE_BOUND_UNION_EXCEPT = ("PolynomialCommitment",)
+
+    def call_targets(self, t, ctx_adt=None):
+        """all local bodies the call may dispatch to. A late-bound call on a local trait other than
+        PolynomialCommitment (`L::encode`, `vk.sec_param()`) may reach any local impl of that method."""
+        one = self.call_target(t, ctx_adt)
+        r = t.get("resolved")
+        tr = t.get("callee_trait")
+        c = t.get("callee")
+        if c and tr and not r and tr in self.traits and tr not in self.LATE_BOUND_UNION_EXCEPT and not t.get("self_adt"):
+            name = c.rsplit("::", 1)[-1]
+            out = [b.id for b in self.bodies.values()
+                   if b.kind != "Closure" and b.name == name and b.impl_trait == tr]
+            if c in self.bodies and c not in out:
+                out.append(c)
+            if out:
+                return sorted(out)
+        return [one] if one else []
+
     def local_callees(self, bid, ctx_adt=None):
         """ids of local bodies directly called from (or closures created in / fn items named in) body bid."""
         key = (bid, ctx_adt)
@@ -337,8 +356,7 @@ class Facts:
         b = self.bodies[bid]
         out = set()
         for _, t in b.calls():
-            c = self.call_target(t, ctx_adt)
-            if c:
+            for c in self.call_targets(t, ctx_adt):
                 out.add(c)
             sc = t.get("self_closure")
             if sc and sc in self.bodies:
